@@ -872,7 +872,7 @@ func (h *Hist) randomEvent() string {
 func (h *Hist) runHistory(scans int) (bool, string) {
 	h.genConfigs()
 	h.scanInterval = []time.Duration{0, time.Nanosecond, time.Millisecond, time.Minute}[h.r.intn(4)]
-	h.realCtor = h.r.chance(4)
+	h.realCtor = h.r.chance(4) || realCtorAlways
 	h.twinT = h.r.intn(len(h.cfgs))
 	if h.r.chance(50) {
 		h.twinT = len(h.cfgs) - 1
@@ -994,6 +994,7 @@ func (h *Hist) runHistory(scans int) (bool, string) {
 }
 
 var slowOK = false
+var realCtorAlways = false
 var focus = ""
 
 // forceEffect: the force-removal taint is put on by operators: any effect, or none
